@@ -1,5 +1,6 @@
 """Splice-and-verify for Verus: extract real items from /repo, splice contracts, run verus."""
 import json
+import time
 import os
 import re
 
@@ -396,7 +397,32 @@ class VerusUnit:
             cmd += ["--smt-option", "smt.random_seed=%d" % (seed % 1000)]
         cmd += (extra_args or [])
         cmd += ["--", "--error-format=json"]
-        rc, so, se, wall = core.run(cmd, cwd=core.GEN, timeout=self.spec.get("timeout", 600))
+        # The verifier is deterministic for a given input text, options and seed: when the text generated from the tree under
+        # check is byte-identical to one already verified (the same unit serving several properties), the verifier's own
+        # output is reused instead of being recomputed (VERIF_NO_CACHE=1 turns this off). Nothing is reused across different texts.
+        import hashlib
+        key = hashlib.sha256(("verus 0.2026.09.13\n" + " ".join(cmd) + "\n" + out).encode()).hexdigest()
+        cdir = os.path.join(core.VERIF, ".cache", "verus-results")
+        cpath = os.path.join(cdir, key + ".json")
+        cached = None
+        if not os.environ.get("VERIF_NO_CACHE") and os.path.exists(cpath):
+            try:
+                with open(cpath) as f:
+                    cached = json.load(f)
+            except Exception:
+                cached = None
+        if cached:
+            rc, so, se, wall = cached["rc"], cached["so"], cached["se"], cached["wall"]
+        else:
+            rc, so, se, wall = core.run(cmd, cwd=core.GEN, timeout=self.spec.get("timeout", 600))
+            if rc != -9 and wall > 20:
+                try:
+                    os.makedirs(cdir, exist_ok=True)
+                    with open(cpath + ".tmp%d" % os.getpid(), "w") as f:
+                        json.dump(dict(rc=rc, so=so, se=se, wall=wall, unit=self.name, at=time.strftime("%Y-%m-%d %H:%M:%S")), f)
+                    os.replace(cpath + ".tmp%d" % os.getpid(), cpath)
+                except Exception:
+                    pass
         if rc == -9:
             raise Undecided("verus timeout on unit %s" % self.name)
         try:
@@ -417,7 +443,7 @@ class VerusUnit:
             if d["message"].startswith("aborting due to"):
                 continue
             diags.append(d)
-        res = VerusResult(self, fn, out, ranges, ledger, js, diags, wall, " ".join(cmd), probe)
+        res = VerusResult(self, fn, out, ranges, ledger, js, diags, wall, " ".join(cmd) + (" [verifier output reused: byte-identical input verified at %s in %.0f s]" % (cached.get("at"), cached.get("wall", 0)) if cached else ""), probe)
         return res
 
 
